@@ -281,7 +281,9 @@ def _highlight_dict(adv):
 
 @functools.lru_cache(maxsize=None)
 def sort_values(adv):
-    v = st.one_of(text(adv), text(adv), text(adv), text(adv), st.sampled_from(INTS), st.sampled_from(FLOATS), st.integers(0, 50), st.none())
+    frags = (ADV + ADV + PLAIN) if adv else PLAIN
+    t1 = st.lists(st.sampled_from(frags), min_size=1, max_size=4).map("".join)  # keyword sort values are mostly non-empty
+    v = st.one_of(t1, t1, t1, t1, text(adv), st.sampled_from(INTS), st.sampled_from(FLOATS), st.integers(0, 50), st.none())
     return st.lists(v, min_size=1, max_size=3)
 
 
